@@ -1,6 +1,7 @@
 package sim
 
 import (
+	"bytes"
 	"errors"
 	"io"
 	"sync"
@@ -386,4 +387,22 @@ func (c *Conn) State() ConnState {
 	c.mu.Lock()
 	defer c.mu.Unlock()
 	return ConnState{len(c.toBroker), c.parked, c.brokerClosed, c.clientClosed, len(c.fromBroker), c.deadline, c.hasDeadline, c.awaitingAnswer()}
+}
+
+// WhenWritten runs f once, on the broker's writing goroutine, at the moment the bytes pattern has
+// been written to this connection (and received by the client side): before the broker's Write
+// returns. f typically makes ANOTHER client act and waits for that client's answer.
+func (c *Conn) WhenWritten(pattern []byte, f func()) {
+	var seen []byte
+	c.OnWritten(func(p []byte) bool {
+		seen = append(seen, p...)
+		if !bytes.Contains(seen, pattern) {
+			if len(seen) > 1<<20 {
+				seen = seen[len(seen)-len(pattern):]
+			}
+			return false
+		}
+		f()
+		return true
+	})
 }
